@@ -389,11 +389,35 @@ func checkC16(c *Check) {
 		}
 	}
 	byClass := map[string][]access{}
+	// accesses that are exempt as "fresh" although they run in a goroutine the object was handed to: the goroutine owns
+	// the object only as long as nobody else writes it
+	goroutineFn := map[*ssa.Function]bool{}
+	for _, r := range roots {
+		if r.fn != nil && strings.Contains(r.kind, "goroutine") {
+			goroutineFn[r.fn] = true
+		}
+	}
+	ownedByGoroutine := map[string]access{}
 	for _, a := range accs {
 		if a.fresh {
+			if goroutineFn[a.fn] {
+				ownedByGoroutine[a.class] = a
+			}
 			continue
 		}
 		byClass[a.class] = append(byClass[a.class], a)
+	}
+	for cl, as := range byClass {
+		owner, owned := ownedByGoroutine[cl]
+		if !owned {
+			continue
+		}
+		for _, a := range as {
+			if a.write && !goroutineFn[a.fn] {
+				c.Fail("C16.R2", cl+"/written-while-owned-by-a-goroutine/"+fnKey(a.fn), P.Pos(instrPos(a.ins)),
+					"location class "+cl+" is written in "+fnKey(a.fn)+" on an object that is already shared, while the goroutine "+fnKey(owner.fn)+" that was handed such an object accesses it without any lock ("+P.Pos(instrPos(owner.ins))+")")
+			}
+		}
 	}
 	var classes []string
 	for k := range byClass {
